@@ -27,7 +27,7 @@ BIG_M = 4096
 
 # ----------------------------------------------------------------------------- case generation
 def gen_cases(rng, tier):
-    mult = 1 if tier == "quick" else 15
+    mult = 1 if tier == "quick" else 10
     cases = []
 
     def add(**kw):
@@ -119,6 +119,50 @@ def gen_cases(rng, tier):
             add(cls="reduce-restore", kind="spin", lr=True, n=n, qn=True, enc="01", sector="mid", method=method, prep="left", m_init=mx,
                 procedure=[[2, 0.5], [max(2, mx // 2), 0.3]] + [[mx, 0.0]] * 5, nroots=1, e_rtol=1e-12, e_atol=1e-12,
                 expect_final_exact=(method == "2site"), algo="davidson")
+    # (m) procedures given as CompressConfig objects with NON-UNIFORM per-bond limits: spins + one big oscillator site at either end
+    #     (exact ranks 1,2,4,8,1 resp. 1,8,4,2,1), both sweep parities (all sweeps but the last are perturbed, so the number of sweeps
+    #     and hence the direction of the last one is fixed), both methods, ground state and an omega-targeted interior level
+    def ranks_of(pd):
+        out = [1]
+        for cut in range(1, len(pd)):
+            lft = rgt = 1
+            for x in pd[:cut]:
+                lft *= x
+            for x in pd[cut:]:
+                rgt *= x
+            out.append(min(lft, rgt))
+        return out + [1]
+    for rep in range(mult):
+        for pos in ("right", "left"):
+            pd = [2, 2, 2, 8] if pos == "right" else [8, 2, 2, 2]
+            rk = ranks_of(pd)
+            for nsw in (3, 4):
+                def cproc(lim, n_=nsw):
+                    return [[{"max_dims": lim}, 0.2 if i < n_ - 1 else 0.0] for i in range(n_)]
+                base = dict(cls="maxdims", kind="spinboson", ns=3, nbas=8, pos=pos, sector=None, prep="left", nroots=1, m_init=4, e_rtol=1e-12, e_atol=1e-12)
+                add(method="2site", procedure=cproc(rk), expect_final_exact=True, expect_bond_dims=True, **base)
+                add(method="2site", procedure=cproc(rk), expect_final_exact=True, expect_bond_dims=True, omega=round(rng.uniform(0.25, 0.45), 3), **base)
+                red = list(rk)
+                red[rng.choice([1, 2, 3])] = max(1, red[2] // 2)
+                add(method="2site", procedure=cproc(red), **base)
+                add(method="1site", procedure=cproc(rk), **dict(base, m_init=8))
+    # (n) inverse = -1 on both sides of the dense / iterative switch, the same problem through both solvers
+    for rep in range(1 * mult):
+        ms = rng.randrange(1, 2 ** 31)
+        for algo in ("davidson", "direct"):
+            add(cls="inverse", group="inv%d" % rep, kind="osc", n=4, nbas=6, sector=None, method="2site", prep="left", inverse=-1.0,
+                procedure=[[40, 0.2], [40, 0.0], [40, 0.0], [40, 0.0]], nroots=1, m_init=8, algo=algo, e_rtol=1e-12, e_atol=1e-12)
+            cases[-1]["seed"] = ms
+    if tier != "quick":
+        for rep in range(2):
+            ms = rng.randrange(1, 2 ** 31)
+            for algo in ("davidson", "direct"):
+                add(cls="inverse", group="invs%d" % rep, kind="spin", n=10, qn=False, sector=None, method="2site", prep="left", inverse=-1.0,
+                    procedure=[[32, 0.2], [32, 0.0], [32, 0.0]], nroots=1, m_init=20, algo=algo)
+                cases[-1]["seed"] = ms
+    # (o) corpus: the input of fix 9c06eb1 -- an exception raised by the optimiser on a legal input is a failure
+    cases.append({"id": len(cases), "seed": 5, "cls": "raise-corpus", "kind": "nroots_corpus", "sector": [3], "method": "1site", "prep": "left",
+                  "procedure": [[2, 0.4], [2, 0.2], [2, 0.0], [2, 0.0]], "nroots": 4, "m_init": 2})
     # (i) warm starts: non-canonical tensors under canonical-looking flags (results of add / apply), both flag settings
     for rep in range(8 * mult):
         kind = rng.choice(["spin", "spin", "holstein"])
@@ -287,6 +331,22 @@ print("case:", case)
 print("exact sector spectrum:", r.get("exact"), "macro energies:", r.get("macro"))
 print("failures of class", %r, ":", bad[:3])
 sys.exit(1 if bad else 0)
+'''
+
+REPRO_CGROUP = r'''
+import sys, json
+sys.path.insert(0, "/verif/harness/impl")
+import c08_run as R
+cases = json.loads(%r)
+R.install()
+es = {}
+for case in cases:
+    r = R.run_case(case)
+    es[case["algo"]] = r["macro"][-1][0] if r.get("ok") else None
+    exact = r.get("exact", [None])[0]
+print("same chain problem at full bond dimension; last reported value per eigen-solver:", es, " exact:", exact)
+vals = [v for v in es.values() if v is not None]
+sys.exit(1 if (len(vals) < len(es) or max(vals) - min(vals) > 1e-6 * max(1.0, abs(min(vals)))) else 0)
 '''
 
 REPRO_GROUP = r'''
@@ -527,6 +587,20 @@ def run(ctx):
             if len(samples) < 2:
                 samples.append({"case": {k: c[k] for k in ("kind", "method", "prep", "procedure", "nroots") if k in c}, "n": r["n"], "sweeps": r["sweeps"],
                                 "events": len(r["trace"]) // 4, "exact": r["exact"][:2], "macro": r["macro"][:3]})
+    cgroups = {}
+    for c in cases:
+        r = res.get(c["id"])
+        if "group" in c and r and r.get("ok") and not r.get("skip"):
+            cgroups.setdefault(c["group"], []).append((c, r))
+    chain_group_cases = {}
+    for g, lst in cgroups.items():
+        if len(lst) < 2:
+            continue
+        es = [J._roots(r["macro"][-1])[0] for _, r in lst]
+        if max(es) - min(es) > 1e-6 * max(1.0, abs(min(es))):
+            chain_group_cases[g] = [c for c, _ in lst]
+            classes.setdefault("solvers-disagree", []).append((lst[0][0], {"group": g, "what": "the dense and the iterative eigen-solver disagree on the same problem at full bond dimension",
+                                                                         "last_reported": {c["algo"]: J._roots(r["macro"][-1])[0] for c, r in lst}, "exact": lst[0][1]["exact"][0]}))
     n_tree = n_tree_solves = n_tree_full = n_ttrace = n_ttrace_ok = 0
     tshapes = set()
     tdist = {}
@@ -625,7 +699,7 @@ def run(ctx):
     for cb in corr_bad:
         ctx.violation("trace-model-eval", "correspondence: the Coq model could not be evaluated", cb, found=False)
     order = ["variational-bound", "witness-projection", "witness-rayleigh", "witness-isometry", "witness-sector", "witness-hook", "full-bond-exactness",
-             "returned-state", "trace-correspondence", "crash", "invalid-input"]
+             "returned-state", "bond-limit", "solvers-disagree", "trace-correspondence", "crash", "invalid-input"]
     for klass in order + sorted(k for k in classes if k not in order):
         if klass not in classes:
             continue
@@ -636,7 +710,10 @@ def run(ctx):
             ctx.notes.append("%d generated cases had MPO/TTNO != dense reference or a Hamiltonian not commuting with the quantum number (C01/C02/C16 territory): %r" % (len(items), d0))
             continue
         if klass in ("crash", "tree-crash"):
-            ctx.notes.append("%d runs raised inside the optimiser (not a statement about energies; recorded): %s" % (len(items), json.dumps(d0)[-400:]))
+            ctx.violation("tree:optimizer-raised" if tree or klass == "tree-crash" else "chain:optimizer-raised",
+                          "dense oracle: the optimiser raised an exception on a legal input (no energy, no state is delivered)",
+                          {"n_failing_cases": len(items), "case": c0, "detail": d0}, found=True,
+                          repro=(REPRO_TREE % (json.dumps(c0), "crash", "crash")) if klass == "tree-crash" else (REPRO_CHAIN % (json.dumps(c0), "crash", "crash")))
             continue
         broken = {"trace-correspondence": "correspondence: event trace of optimize_mps vs Model/Sweep.v (env_fresh / sweep_coverage no longer describe the code)"
                   if not tree else "correspondence: event trace of optimize_ttns vs Model/TreeOpt.v (tree_env_fresh no longer describes the code)",
@@ -649,6 +726,7 @@ def run(ctx):
                   "variational-bound": "dense oracle: reported energy below the exact sector eigenvalue (C08_variational_bound / C08_second_root / C08_shifted_target contradicted, so one of their witness hypotheses fails)",
                   "full-bond-exactness": "dense oracle: at full bond dimension the reported energy differs from exact diagonalisation (residual clause)",
                   "returned-state": "dense oracle: returned state not normalised / outside the sector / energy differs from the reported one",
+                  "bond-limit": "dense oracle: a bond of the returned state exceeds the limit given for it (C08_trunc_bond_is_active_bond)",
                   "state-not-normalised": "dense oracle: `the returned states are normalised` fails for the tree optimiser (state optimised in place)",
                   "solvers-disagree": "dense oracle: eigen-solver branches disagree at full bond dimension (C08_solvers_request_smallest / exact diagonalisation)"}.get(
                       klass[5:] if tree else klass, "dense oracle")
@@ -658,6 +736,8 @@ def run(ctx):
             repro = (REPRO_TREE if tree else REPRO_CHAIN) % (json.dumps(c0), klass[5:] if tree else klass, klass)
             if tree:
                 repro = REPRO_TREE % (json.dumps(c0), klass, klass)
+            if klass == "solvers-disagree":
+                repro = REPRO_CGROUP % (json.dumps(chain_group_cases[d0["group"]]),)
             if klass == "tree-solvers-disagree":
                 repro = REPRO_GROUP % (json.dumps(group_cases[d0["group"]]),)
         key = ("tree:" + klass[5:]) if tree else ("chain:" + klass)      # stable: call-site family + failure class
